@@ -100,6 +100,22 @@ def probeOKB [DecidableEq J] [DecidableEq V] (d : List (ModDesc J)) (pr : Probe 
 /-- "stable between calls" -/
 def stableB [DecidableEq J] (d1 d2 : List (ModDesc J)) : Bool := decide (d1 = d2)
 
+/-! ### interface class and features against the implementing class -/
+
+/-- "the interface class and features match the implementing class": the reported interface class is the first
+class of the class chain that is one of the SECoP base classes (none if there is none), the reported features are
+exactly the classes of the chain that have `Feature` as a direct base, in chain order -/
+def ClassPropsOK (base : List String) (mro : List ClassInfo) (ic feats : List String) : Prop :=
+  (match ic with
+   | [] => ∀ c ∈ mro, c.name ∉ base
+   | [x] => x ∈ base ∧ ∃ before after, mro.map (·.name) = before ++ x :: after ∧ ∀ y ∈ before, y ∉ base
+   | _ => False)
+  ∧ feats = (mro.filter (·.isFeature)).map (·.name)
+
+/-- monitor: the report's `interface_classes` / `features` of a module against the class chain -/
+def classPropsB (base : List String) (mro : List ClassInfo) (ic feats : List String) : Bool :=
+  decide (ic = interfaceClassesOf base mro) && decide (feats = featuresOf mro)
+
 /-! ### described datainfo against the runtime datatype (relative to the datatype oracle) -/
 
 /-- the two independent verdicts on one payload, and whether emitted values could be imported by a client that built
